@@ -347,6 +347,12 @@ Theorem deliver_spec expose s :
   (expose = true -> deliver expose s = Copied s) /\ (expose = false -> deliver expose s = Wrapped s).
 Proof. split; intros ->; reflexivity. Qed.
 
+(* non-vacuity of "whatever its class": a failure that itself claims to be a RemoteException is wrapped like any other *)
+Example ex_remote_exception_wrapped :
+  let s := {| s_type := remote_exception_name; s_value := [120]; s_traceback := []; s_parents := [remote_exception_name; [111]] |} in
+  claims_remote_exception s = true /\ deliver false s = Wrapped s.
+Proof. split; reflexivity. Qed.
+
 (* ---- non-vacuity *)
 Example ex_surrogate_and_badstr :
   get_state false {| e_type := [86]; e_str := Exc "RuntimeError"%string; e_fallback := [60; 56580; 62]; e_stack := []; e_parents := [[86; 55296]] |}
